@@ -99,9 +99,8 @@ def build_mm(case):
     except Exception as e:
         raise DataStageError(e)
     prior = case.get('prior')
-    if prior:
-        # Start from a NON-initial state of the data object: another matched-markets object built on the SAME data
-        # object (other parameters, window not shorter than this case's) has already been used.
+
+    def other_object_uses_the_data():
         mm0 = TBRMatchedMarkets(data, params(prior['kw']))
         try:
             if prior['op'] == 'geo_assignments':
@@ -110,7 +109,20 @@ def build_mm(case):
                 getattr(mm0, prior['op'])()
         except ValueError:
             pass
-    return TBRMatchedMarkets(data, par), par
+    if prior and not prior.get('interleave'):
+        # Start from a NON-initial state of the data object: another matched-markets object built on the SAME data
+        # object (other parameters, window not shorter than this case's) has already been used.
+        other_object_uses_the_data()
+    mm = TBRMatchedMarkets(data, par)
+    if prior and prior.get('interleave'):
+        # Interleaving: this object answers a query first, THEN the other object uses the shared data object, then
+        # this object is asked for the search (its answers must not depend on what the other object installed).
+        try:
+            mm.count_max_designs()
+        except ValueError:
+            pass
+        other_object_uses_the_data()
+    return mm, par
 
 
 class _Timeout(Exception):
